@@ -1,5 +1,6 @@
 """C09 - rate-limiting operators never invent, duplicate or reorder items."""
 import timedcheck
+from common import real_timer_cases
 import tchain
 
 OPS = [("(debounce 5)", 5), ("(debounce 2)", 2), ("(throttle 5 leading)", 5), ("(throttle 5 tailing)", 5), ("(throttle 5 all)", 5),
@@ -22,4 +23,6 @@ def run(tier, seed, replay=None):
         "orders of same-instant input events and timer firings; observation = deliveries with virtual time stamps; and " + tchain.RULE2,
         ["sample(notifier) is covered by C04 (it takes a notifier, not a scheduler)"],
         tier, seed, replay,
-        extra=lambda tier, rng: [c for c in tchain.two_cases(tier, rng) if "debounce" in c[1] or "buffer" in c[1]])
+        extra=lambda tier, rng: [c for c in tchain.two_cases(tier, rng) if "debounce" in c[1] or "buffer" in c[1]],
+        # real threads, real timer: an item arriving while the window task hands the trailing item to a slow subscriber (seeded C09-13)
+        post=lambda rep: real_timer_cases(rep, "C09 (source items only, at most once, in source order: throttle_time on a thread pool)", which="order"))
